@@ -66,7 +66,13 @@ type Event struct {
 	Path   string `json:"path"`
 	Len    int    `json:"len,omitempty"` // Write: len(p)
 	Atomic bool   `json:"atomic,omitempty"`
+	// Data is a copy of the bytes of a Write of at most KeepData bytes (so that a sweep can
+	// choose structural cut points such as line boundaries); nil otherwise.
+	Data []byte `json:"-"`
 }
+
+// KeepData is the largest Write whose bytes are kept in the event log.
+const KeepData = 4096
 
 // Variant selects how a failing event behaves.
 type Variant int
@@ -132,6 +138,13 @@ type Plan struct {
 	// CrashAt >= 0: the event with this index and everything after it is not performed.
 	// Use -1 (NoCrash) for none. NewPlan sets -1.
 	CrashAt int
+	// CrashPrefix > 0: if the crash event itself (index == CrashAt) is a Write of more than
+	// CrashPrefix bytes, its first CrashPrefix bytes still reach the wrapped object before the
+	// crash: a process killed in the middle of a write (a torn write).
+	CrashPrefix int
+	// ShortN maps the index of a VarShortWrite failure to the number of bytes that are
+	// forwarded before the error (0 < n < len); without an entry half of the data is forwarded.
+	ShortN map[int]int
 	// Hook, if set, is called (outside the lock) before each event is handled, with the event
 	// about to happen. Used by child processes to os.Exit at an event.
 	Hook func(Event)
@@ -153,6 +166,15 @@ func FailAt2(k1 int, v1 Variant, k2 int, v2 Variant) Plan {
 
 // CrashAt returns a plan crashing at event k.
 func CrashAt(k int) Plan { return Plan{CrashAt: k} }
+
+// CrashInWrite returns a plan crashing at event k after the first n bytes of that event (if it is
+// a Write longer than n) were written.
+func CrashInWrite(k, n int) Plan { return Plan{CrashAt: k, CrashPrefix: n} }
+
+// ShortWriteAt returns a plan where Write event k forwards its first n bytes and then fails.
+func ShortWriteAt(k, n int) Plan {
+	return Plan{CrashAt: NoCrash, Fail: map[int]Variant{k: VarShortWrite}, ShortN: map[int]int{k: n}}
+}
 
 // Bucket is the fault-injecting wrapper.
 type Bucket struct {
@@ -221,19 +243,26 @@ func (b *Bucket) Reap() {
 type decision struct {
 	ev      Event
 	crashed bool
+	torn    int // > 0: this is the crash event and this many bytes are still to be forwarded
 	fail    bool
 	variant Variant
 }
 
 // event registers one event and decides its fate.
-func (b *Bucket) event(kind Kind, path string, n int, atomic bool) decision {
+func (b *Bucket) event(kind Kind, path string, n int, atomic bool, data []byte) decision {
 	b.mu.Lock()
 	ev := Event{Index: b.next, Kind: kind, KindS: kind.String(), Path: path, Len: n, Atomic: atomic}
+	if kind == KindWrite && len(data) <= KeepData {
+		ev.Data = append([]byte(nil), data...)
+	}
 	b.next++
 	b.log = append(b.log, ev)
 	d := decision{ev: ev}
 	if !b.crashed && b.plan.CrashAt >= 0 && ev.Index >= b.plan.CrashAt {
 		b.crashed = true
+		if ev.Index == b.plan.CrashAt && kind == KindWrite && b.plan.CrashPrefix > 0 && b.plan.CrashPrefix < n {
+			d.torn = b.plan.CrashPrefix
+		}
 	}
 	if b.crashed {
 		d.crashed = true
@@ -279,7 +308,7 @@ func (b *Bucket) Walk(ctx context.Context, prefix string, f func(storage.ObjectI
 
 func (b *Bucket) Put(ctx context.Context, path string, options ...storage.PutOption) (storage.WriteObjectCloser, error) {
 	atomic := storage.NewPutOptions(options).Atomic()
-	d := b.event(KindPut, path, 0, atomic)
+	d := b.event(KindPut, path, 0, atomic, nil)
 	if d.crashed {
 		return nil, ErrCrashed
 	}
@@ -298,7 +327,7 @@ func (b *Bucket) Put(ctx context.Context, path string, options ...storage.PutOpt
 }
 
 func (b *Bucket) Delete(ctx context.Context, path string) error {
-	d := b.event(KindDelete, path, 0, false)
+	d := b.event(KindDelete, path, 0, false, nil)
 	if d.crashed {
 		return ErrCrashed
 	}
@@ -309,7 +338,7 @@ func (b *Bucket) Delete(ctx context.Context, path string) error {
 }
 
 func (b *Bucket) DeleteAll(ctx context.Context, prefix string) error {
-	d := b.event(KindDeleteAll, prefix, 0, false)
+	d := b.event(KindDeleteAll, prefix, 0, false, nil)
 	if d.crashed {
 		return ErrCrashed
 	}
@@ -335,8 +364,12 @@ type object struct {
 }
 
 func (o *object) Write(p []byte) (int, error) {
-	d := o.b.event(KindWrite, o.path, len(p), o.atomic)
+	d := o.b.event(KindWrite, o.path, len(p), o.atomic, p)
 	if d.crashed {
+		if d.torn > 0 {
+			n, _ := o.under.Write(p[:d.torn])
+			return n, ErrCrashed
+		}
 		return 0, ErrCrashed
 	}
 	if d.fail {
@@ -347,7 +380,11 @@ func (o *object) Write(p []byte) (int, error) {
 		}
 		o.mu.Unlock()
 		if d.variant == VarShortWrite && len(p) > 0 {
-			n, uerr := o.under.Write(p[:len(p)/2])
+			cut := len(p) / 2
+			if n, ok := o.b.plan.ShortN[d.ev.Index]; ok && n > 0 && n < len(p) {
+				cut = n
+			}
+			n, uerr := o.under.Write(p[:cut])
 			if uerr != nil {
 				return n, errors.Join(err, uerr)
 			}
@@ -373,7 +410,7 @@ func (o *object) SetLocalPath(localPath string) error {
 }
 
 func (o *object) Close() error {
-	d := o.b.event(KindClose, o.path, 0, o.atomic)
+	d := o.b.event(KindClose, o.path, 0, o.atomic, nil)
 	if d.crashed {
 		return ErrCrashed
 	}
